@@ -572,3 +572,133 @@ Section ResidEntry.
         rewrite run_length, mapi_length. exact Hz.
   Qed.
 End ResidEntry.
+
+(* ---- the entry points as traces: in bounds for every input, each slot once whenever the call returns ---- *)
+Lemma acc_ok_mono len len2 len' len2' a : len <= len' -> len2 <= len2' -> acc_ok len len2 a -> acc_ok len' len2' a.
+Proof.
+  intros H1 H2. destruct a as [view i|view a b|view a b|i]; cbn; try destruct view; lia.
+Qed.
+
+Lemma safe_done_writes {T St O} two w (cbt : St -> option nat * nat * T -> tr (St * O))
+      (cb : St -> option nat * nat * T -> res (St * O)) s0 (xs : list T) :
+  (forall s st e v, start_le st e -> reads_within (start_or_0 st) e (fst (cbt s (st, e, v)))) ->
+  (forall s a, snd (cbt s a) = cb s a) ->
+  kernel_safe w xs (idx_run true w cb s0 xs) -> bad_window w xs = false ->
+  writes_of (kernel_trace true two w cbt s0 xs) = seq 0 (length xs).
+Proof.
+  intros Hcb He [(out & Hd & _)|(-> & Hx & _)] Hb.
+  - apply (kernel_trace_writes cbt Hcb cb He two w s0 xs out Hd).
+  - unfold bad_window in Hb. destruct xs; [contradiction|discriminate].
+Qed.
+
+Lemma bad_window_cmp {T} w (xs : list T) : bad_window (cmp_window w xs) xs = bad_window w xs.
+Proof.
+  unfold bad_window, cmp_window. destruct xs as [|x xs]; [cbn; rewrite !Bool.andb_false_r; reflexivity|].
+  cbn [length Nat.eqb negb]. rewrite !Bool.andb_true_r. destruct w; reflexivity.
+Qed.
+
+Section EntryTraceFacts.
+  Context {A : Type} {NA : Num A} {T : Type} {DT : IsNone T A}.
+
+  Theorem trace_ts_vext_ok scmp body w mp (xs : list T) len2 : length xs <= len2 ->
+    Forall (acc_ok (length xs) len2) (trace_ts_vext scmp body w mp xs).
+  Proof. intros H. apply kernel_trace_ok; [|exact H]. intros. apply vext_cb_tr_reads. assumption. Qed.
+  Theorem trace_ts_varg_ok scmp body w mp (xs : list T) len2 : length xs <= len2 ->
+    Forall (acc_ok (length xs) len2) (trace_ts_varg scmp body w mp xs).
+  Proof. intros H. apply kernel_trace_ok; [|exact H]. intros. apply varg_cb_tr_reads. assumption. Qed.
+  Theorem trace_ts_vrank_ok {B : Type} {NB : Num B} body w mp pct rev (xs : list T) len2 : length xs <= len2 ->
+    Forall (acc_ok (length xs) len2) (trace_ts_vrank (B := B) body w mp pct rev xs).
+  Proof. intros H. apply kernel_trace_ok; [|exact H]. intros. apply vrank_cb_tr_reads. assumption. Qed.
+  Theorem trace_ts_vminmaxnorm_ok (tmin tmax : A) body w mp (xs : list T) len2 : length xs <= len2 ->
+    Forall (acc_ok (length xs) len2) (trace_ts_vminmaxnorm tmin tmax body w mp xs).
+  Proof. intros H. apply kernel_trace_ok; [|exact H]. intros. apply mmnorm_cb_tr_reads. assumption. Qed.
+
+  Theorem trace_ts_vext_writes scmp w mp (xs : list T) : bad_window w xs = false ->
+    writes_of (trace_ts_vext scmp true w mp xs) = seq 0 (length xs).
+  Proof.
+    intros Hb. unfold trace_ts_vext.
+    apply (safe_done_writes false (cmp_window w xs) _ (vext_cb scmp (cmp_mp mp (cmp_window w xs)) xs)).
+    - intros. apply vext_cb_tr_reads. assumption.
+    - intros. apply vext_cb_tr_erase.
+    - pose proof (ts_vext_safe scmp true w mp xs) as H. unfold ts_vext in H.
+      destruct H as [H|(-> & Hx & _)]; [left; exact H|]. unfold bad_window in Hb. destruct xs; [contradiction|discriminate].
+    - rewrite bad_window_cmp. exact Hb.
+  Qed.
+  Theorem trace_ts_varg_writes scmp w mp (xs : list T) : scmp_refl_on scmp xs -> bad_window w xs = false ->
+    writes_of (trace_ts_varg scmp true w mp xs) = seq 0 (length xs).
+  Proof.
+    intros Hr Hb. unfold trace_ts_varg.
+    apply (safe_done_writes false (cmp_window w xs) _ (varg_cb scmp (cmp_mp mp (cmp_window w xs)) xs)).
+    - intros. apply varg_cb_tr_reads. assumption.
+    - intros. apply varg_cb_tr_erase.
+    - pose proof (ts_varg_safe scmp true w mp xs Hr) as H. unfold ts_varg in H.
+      destruct H as [H|(-> & Hx & _)]; [left; exact H|]. unfold bad_window in Hb. destruct xs; [contradiction|discriminate].
+    - rewrite bad_window_cmp. exact Hb.
+  Qed.
+  Theorem trace_ts_vrank_writes {B : Type} {NB : Num B} w mp pct rev (xs : list T) : bad_window w xs = false ->
+    writes_of (trace_ts_vrank (B := B) true w mp pct rev xs) = seq 0 (length xs).
+  Proof.
+    intros Hb. unfold trace_ts_vrank.
+    apply (safe_done_writes false (cmp_window w xs) _
+             (vrank_cb (B := B) (cmp_mp mp (cmp_window w xs)) (cmp_window w xs - 1) pct rev xs)).
+    - intros. apply vrank_cb_tr_reads. assumption.
+    - intros. apply vrank_cb_tr_erase.
+    - pose proof (ts_vrank_safe (B := B) true w mp pct rev xs) as H. unfold ts_vrank in H.
+      destruct H as [H|(-> & Hx & _)]; [left; exact H|]. unfold bad_window in Hb. destruct xs; [contradiction|discriminate].
+    - rewrite bad_window_cmp. exact Hb.
+  Qed.
+  Theorem trace_ts_vminmaxnorm_writes (tmin tmax : A) w mp (xs : list T) : bad_window w xs = false ->
+    writes_of (trace_ts_vminmaxnorm tmin tmax true w mp xs) = seq 0 (length xs).
+  Proof.
+    intros Hb. unfold trace_ts_vminmaxnorm.
+    apply (safe_done_writes false w _ (mmnorm_cb tmin tmax (mp_eff mp w 0) xs)).
+    - intros. apply mmnorm_cb_tr_reads. assumption.
+    - intros. apply mmnorm_cb_tr_erase.
+    - exact (ts_vminmaxnorm_safe tmin tmax true w mp xs).
+    - exact Hb.
+  Qed.
+End EntryTraceFacts.
+
+Section EntryTraceFacts2.
+  Context {A : Type} {NA : Num A} {T1 : Type} {D1 : IsNone T1 A} {T2 : Type} {D2 : IsNone T2 A}.
+
+  (* both series: every read of `self` is < len xs and every read of `other` is < len ys — for EVERY pair of
+     lengths (a shorter second series is rejected by the index body before anything is read, and the iterator
+     body stops at the shorter one) *)
+  Theorem trace_ts_vregx_resid_ok (K : rstat) body w mp (xs : list T1) (ys : list T2) :
+    Forall (acc_ok (length xs) (length ys)) (trace_ts_vregx_resid (A := A) K body w mp xs ys).
+  Proof.
+    unfold trace_ts_vregx_resid. destruct (body && (length ys <? length xs)); [constructor|].
+    set (zs := combine xs ys).
+    assert (Hz : length zs = Nat.min (length xs) (length ys)) by apply combine_length.
+    eapply Forall_impl; [|apply (kernel_trace_ok _ (fun s st e v => resid_cb_tr_reads zs K _ s st e v) body true w csum0 zs (length zs)); lia].
+    intros a Ha. eapply acc_ok_mono; [| |exact Ha]; lia.
+  Qed.
+
+  Theorem trace_ts_vregx_resid_writes (K : rstat) w mp (xs : list T1) (ys : list T2) :
+    length xs <= length ys -> bad_window w xs = false ->
+    writes_of (trace_ts_vregx_resid (A := A) K true w mp xs ys) = seq 0 (length xs).
+  Proof.
+    intros Hl Hb. unfold trace_ts_vregx_resid. cbn [andb].
+    replace (length ys <? length xs) with false by (symmetry; apply Nat.ltb_ge; exact Hl).
+    set (zs := combine xs ys).
+    assert (Hz : length zs = length xs) by (unfold zs; rewrite combine_length; lia).
+    rewrite <- Hz.
+    apply (safe_done_writes true w _ (fun s a => snd (resid_cb_tr K (mp_eff mp w 0) zs s a))).
+    - intros. apply resid_cb_tr_reads. assumption.
+    - reflexivity.
+    - pose proof (ts_vregx_resid_chk_eq (A := A) K true w mp xs ys) as E.
+      unfold ts_vregx_resid_chk in E. cbn [andb] in E.
+      replace (length ys <? length xs) with false in E by (symmetry; apply Nat.ltb_ge; exact Hl).
+      fold zs in E. rewrite E.
+      destruct (ts_vregx_resid_safe (A := A) K true w mp xs ys) as [(out & Hd & Ho)|Hp].
+      + left. exists out. split; [exact Hd|]. rewrite Ho, Hz. lia.
+      + right. unfold bad_window in Hb. destruct w as [|w].
+        * destruct xs as [|x xs']; [|discriminate]. exfalso.
+          unfold ts_vregx_resid, rolling2_apply_idx_to in Hp. cbn in Hp. discriminate.
+        * exfalso. unfold ts_vregx_resid, rolling2_apply_idx_to in Hp.
+          replace (length ys <? length xs) with false in Hp by (symmetry; apply Nat.ltb_ge; exact Hl).
+          rewrite rolling_apply_idx_to_eq in Hp by lia. discriminate.
+    - unfold bad_window in *. rewrite Hz. exact Hb.
+  Qed.
+End EntryTraceFacts2.
